@@ -38,4 +38,11 @@ SPECS = [
     dict(name="linear_fn", file=_UT, qual="get_linear_fn.func", start=None, end=None, ret="Q",
          inputs=[("progress_remaining", "Q"), ("start_v", "Q"), ("end_v", "Q"), ("end_fraction", "Q")],
          subst={"start": "start_v", "end": "end_v"}),     # `end` is a Coq keyword
+    # PPO.__init__: rollout size, number of untruncated minibatches, when the truncated-minibatch warning is issued
+    dict(name="ppo_rollout_size", file="stable_baselines3/ppo/ppo.py", qual="PPO.__init__", start=r"^buffer_size = ", end=None, kind="expr", ret="Z",
+         inputs=[("n_envs", "Z"), ("n_steps", "Z")], subst={"self.env.num_envs": "n_envs", "self.n_steps": "n_steps"}),
+    dict(name="ppo_untruncated_batches", file="stable_baselines3/ppo/ppo.py", qual="PPO.__init__", start=r"^untruncated_batches = ", end=None, kind="expr", ret="Z",
+         inputs=[("buffer_size", "Z"), ("batch_size", "Z")]),
+    dict(name="ppo_truncated_warning", file="stable_baselines3/ppo/ppo.py", qual="PPO.__init__", start=r"^if (not )?\(?buffer_size\b", end=None, kind="test",
+         inputs=[("buffer_size", "Z"), ("batch_size", "Z")]),
 ]
